@@ -105,6 +105,24 @@ def packet_case(ctx, case):
         if body != ref_body:
             ctx.fail('packet', 'G2-bytes', case, body.hex()[:300],
                      ref_body.hex()[:300])
+    if name == 'sb position and look' and body is not None:
+        # the same packet filled through its record view
+        try:
+            from minecraft.networking.types import PositionAndLook
+            pk2 = cls()
+            pk2.context = c
+            pk2.position_and_look = PositionAndLook(
+                x=vals['x'], y=vals['feet_y'], z=vals['z'], yaw=vals['yaw'],
+                pitch=vals['pitch'])
+            pk2.on_ground = vals['on_ground']
+            s2 = Sink()
+            pk2.write(s2)
+            if P5.frame_split(s2.value)[1] != body:
+                ctx.fail('packet', 'G2-bytes-via-record-view', case,
+                         P5.frame_split(s2.value)[1].hex()[:200],
+                         body.hex()[:200])
+        except Exception as e:
+            ctx.fail('packet', 'G2-record-view-raises', case, exc=e)
     # G3: reference bytes decode under pyCraft
     from minecraft.networking.packets import PacketBuffer
     q = cls()
